@@ -57,6 +57,10 @@ def results_digest(res: dict) -> str:
     return h.hexdigest()[:16]
 
 
+class SimulatedCrash(Exception):
+    pass
+
+
 class Probe(Component):
     """passive observer: digests the whole state table at the start and at the end of every step"""
 
@@ -66,6 +70,8 @@ class Probe(Component):
         self.digests = []
         self.events = []
         self.sim = None
+        self.crash_at = None      # simulated crash: raise at the start of step number `crash_at` (0-based)
+        self.steps_started = 0
 
     @property
     def name(self):
@@ -95,6 +101,9 @@ class Probe(Component):
         random.random()
 
     def on_time_step_prepare(self, event):
+        if self.crash_at is not None and self.steps_started == self.crash_at:
+            raise SimulatedCrash()
+        self.steps_started += 1
         self._dig("prepare", event)
 
     def on_collect_metrics(self, event):
@@ -143,6 +152,8 @@ def main():
                 sim = dill.load(f)
             probe = [c for c in sim._component_manager._components if c.name == "zz_probe"][0]
             probe.noise = noise
+            probe.crash_at = None
+            # the crashed process had already entered the next step's first state; the backup was written before that
             finish(sim, probe, "step", out)
         else:
             for _ in range(int(job.get("prior_contexts", 0))):
@@ -164,7 +175,20 @@ def main():
                 sim.initialize_simulants()
             out["context_name"] = sim.name
             probe.digests.append("init:" + table_digest(sim._population.get_population(True)))
-            if job.get("save_at") is not None:
+            if job.get("crash_at") is not None:
+                # the engine's own backup path: run(backup_path, backup_freq) writes a backup after every step; the
+                # process "crashes" at the start of step `crash_at`, leaving the backup of the previous boundary on disk
+                probe.crash_at = int(job["crash_at"])
+                if probe.crash_at == 0:
+                    sim.write_backup(job["save_path"])     # nothing stepped yet: run() has not written anything
+                try:
+                    sim.run(backup_path=job["save_path"], backup_freq=1e-9)
+                    out["crashed"] = False
+                except SimulatedCrash:
+                    out["crashed"] = True
+                out["digests"] = list(probe.digests)
+                out["saved"] = True
+            elif job.get("save_at") is not None:
                 for _ in range(int(job["save_at"])):
                     sim.step()
                 sim.write_backup(job["save_path"])
